@@ -47,7 +47,7 @@ def run(ctx):
     rng = ctx.rng
     ctx.rule = ('random dense and sparse-with-floor logit matrices (T<=14, C<=6) with alignable transcriptions (peaky / diffuse), '
                 'one-hot posteriors, transformer-shaped lines (one frame per label); random hypothesis bags with/without LM scores and '
-                'LM weights in [0,3]; thresholds in [0,1]. non-trivial = >= 2 labels and not all confidences in {0,1}')
+                'LM weights in [0,3]; thresholds: in [0,1], negative (incl. -inf), 0, 1, > 1 (incl. inf), next to the decisive value. non-trivial = >= 2 labels and not all confidences in {0,1}')
     ctx.assumptions += ['np.exp/logaddexp/logsumexp (float) approximate the real functions; model compared on the exact dyadic '
                         'values of the probabilities the code itself computed (D2), outputs within 1e-12']
     reqs, impl = [], []
@@ -156,12 +156,28 @@ def run(ctx):
                     ctx.violation('range:letter', 'exp(letter confidence) outside [0,1]', inp, lc1)
             except Exception as e:
                 ctx.violation('raises-letter:' + type(e).__name__, 'get_letter_confidence raised %r' % (e,), inp)
-        thr1, thr2 = sorted([rng.random(), rng.random()])
+        mm = float(np.exp(np.min(np.max(lp, axis=1))))
+
+        def pick_thr():
+            r = rng.random()
+            if r < 0.45:
+                return rng.random()
+            if r < 0.6:
+                return rng.choice([-1e-9, -0.25, -1.0, -1e6, -math.inf])
+            if r < 0.75:
+                return rng.choice([0.0, 1.0, 1.5, 1e6, math.inf])
+            return mm + rng.choice([-1e-3, 1e-3, -0.1, 0.1])
+        thr1, thr2 = sorted([pick_thr(), pick_thr()])
+        ctx.count('threshold:' + ('negative' if thr1 < 0 else 'in[0,1]' if thr1 <= 1 else '>1'))
         e1 = bool(pp.line_confident_enough(dense, thr1))
         e2 = bool(pp.line_confident_enough(dense, thr2))
         e1s = bool(pp.line_confident_enough(dense + shift, thr1))
         if e2 and not e1:
             ctx.violation('threshold-monotone', 'confident at a higher threshold but not at a lower one', inp, [thr1, thr2])
+        for thr, e in ((thr1, e1), (thr2, e2)):
+            if abs(mm - thr) > 1e-9 and e != (mm > thr):
+                ctx.violation('threshold-semantics:' + ('negative' if thr < 0 else 'nonnegative'),
+                              'confident-line test is not "smallest per-frame best posterior exceeds the threshold"', inp, [thr, e], mm)
         if e1 != e1s and abs(np.exp(np.min(np.max(lp, axis=1))) - thr1) > 1e-9:
             ctx.violation('shift:enough', 'confident-line test changes under a per-frame shift', inp)
         cl = pp.PageParser.compute_line_confidence(line)
@@ -180,8 +196,9 @@ def run(ctx):
             impl.append((inp, conf, 1e-12))
             reqs.append(dict(p='C16', op='letters', probs=P, alignment=[int(a) for a in fa], blank=C - 1))
             impl.append((inp, [math.exp(x) for x in lc1], 1e-9))
-        reqs.append(dict(p='C16', op='enough', probs=P, thr=rat(thr1)))
-        impl.append((inp, e1, None))
+        if math.isfinite(thr1):
+            reqs.append(dict(p='C16', op='enough', probs=P, thr=rat(thr1)))
+            impl.append((inp, e1, None))
         reqs.append(dict(p='C16', op='getprob', ids=[int(i) for i in np.argmax(lp, axis=-1)], ps=[rat(x) for x in np.exp(np.max(lp, axis=-1))]))
         impl.append((inp, [float(cl)], 1e-12))
         reqs.append(dict(p='C16', op='median', xs=[rat(c) for c in conf]))
